@@ -2,7 +2,7 @@
    ExtrOcamlBasic only: bool, option, unit, list, prod, sumbool, sumor map to the OCaml
    types; N / positive / nat stay Coq datatypes. *)
 From Coq Require Import ExtrOcamlBasic.
-From PG Require Import Base Mapping Spec Mapper CacheWriter CacheReader Stacktrace Java Metadata Sink Uuid Layout Domain.
+From PG Require Import Base Mapping Spec Mapper CacheWriter CacheReader Stacktrace Java Metadata Sink Uuid Layout Domain PinnedModel.
 Extraction Language OCaml.
 Set Extraction AccessOpaque.
 Extraction "model.ml"
@@ -10,7 +10,7 @@ Extraction "model.ml"
   items try_parse recs ok_records
   Sline Sparams Sclass Smethod blocks
   build m_remap_class m_remap_method m_remap_frame_lines m_remap_frame_params
-  write_struct ser write chunks header_words
+  write_struct ser write chunks header_words write_struct_pinned snapshot_write
   parse c_remap_class c_remap_method c_remap_frame_lines c_remap_frame_params read_string
   parse_throwable parse_frame print_frame print_throwable print_trace parse_trace
   remap_text remap_typed depth
